@@ -72,6 +72,12 @@ PYTHON_VERSION_MARKERS = {"python_version", "python_full_version"}
 _parser = Parser(GRAMMAR_PEP_508_MARKERS, "lalr")
 
 
+def _quoted(value: str) -> str:
+    # a marker string has no escapes: a value containing a double quote
+    # can only be written in single quotes
+    return f"'{value}'" if '"' in value else f'"{value}"'
+
+
 class BaseMarker(ABC):
     @property
     def complexity(self) -> tuple[int, int]:
@@ -531,9 +537,9 @@ class SingleMarker(SingleMarkerLike[Union[BaseConstraint, VersionConstraint]]):
             raise RuntimeError(f"Invalid marker operator '{self._operator}'")
 
         if self._swapped_name_value:
-            constraint = f'"{self._value}" {operator} {self._name}'
+            constraint = f"{_quoted(self._value)} {operator} {self._name}"
         else:
-            constraint = f'{self._name} {operator} "{self._value}"'
+            constraint = f"{self._name} {operator} {_quoted(self._value)}"
         return parse_marker(constraint)
 
     def __eq__(self, other: object) -> bool:
@@ -547,8 +553,8 @@ class SingleMarker(SingleMarkerLike[Union[BaseConstraint, VersionConstraint]]):
 
     def __str__(self) -> str:
         if self._swapped_name_value:
-            return f'"{self._value}" {self._operator} {self._name}'
-        return f'{self._name} {self._operator} "{self._value}"'
+            return f"{_quoted(self._value)} {self._operator} {self._name}"
+        return f"{self._name} {self._operator} {_quoted(self._value)}"
 
 
 class AtomicMultiMarker(SingleMarkerLike[MultiConstraint]):
@@ -578,7 +584,7 @@ class AtomicMultiMarker(SingleMarkerLike[MultiConstraint]):
 
     def __str__(self) -> str:
         return " and ".join(
-            f'{self._name} {c.operator} "{c.value}"'
+            f"{self._name} {c.operator} {_quoted(c.value)}"
             for c in self._constraint.constraints
         )
 
@@ -614,7 +620,7 @@ class AtomicMarkerUnion(SingleMarkerLike[UnionConstraint]):
         # contains only elements of type Constraint (instead of BaseConstraint)
         # but mypy can't see that.
         return " or ".join(
-            f'{self._name} {c.operator} "{c.value}"'  # type: ignore[attr-defined]
+            f"{self._name} {c.operator} {_quoted(c.value)}"  # type: ignore[attr-defined]
             for c in self._constraint.constraints
         )
 
